@@ -252,24 +252,7 @@ func registerCommitments() {
 
 	// ---- ring-Pedersen (intcom) over a 256-bit safe-prime modulus
 	const ic = "pkg/commitments/intcom."
-	trap := func() *intcom.TrapdoorKey {
-		pp := primeTable[2] // safe primes
-		p, q := pp.natPlus()
-		grp := must(znstar.NewRSAGroup(p, q))
-		pq := new(big.Int).Mul(new(big.Int).Rsh(bigHex(pp.p), 1), new(big.Int).Rsh(bigHex(pp.q), 1))
-		zmod := must(num.NewZMod(must(num.NPlus().FromBig(pq))))
-		st := stream("intcom-trapdoor")
-		for i := 0; i < 1000; i++ {
-			t := must(grp.RandomQuadraticResidue(st))
-			var b [40]byte
-			_, _ = st.Read(b[:])
-			lambda := must(zmod.FromBig(new(big.Int).Mod(new(big.Int).SetBytes(b[:]), pq)))
-			if tk, err := intcom.NewTrapdoorKey(t, lambda); err == nil {
-				return tk
-			}
-		}
-		panic("no intcom trapdoor key found")
-	}
+	trap := func() *intcom.TrapdoorKey { return intcomTrapdoor(primeTable[2], "intcom-trapdoor") }
 	add(spec[*intcom.TrapdoorKey]{
 		name: "intcom.TrapdoorKey", covers: ic + "TrapdoorKey", group: "commitments",
 		gen:   func() []nv[*intcom.TrapdoorKey] { return []nv[*intcom.TrapdoorKey]{{"safe256", trap()}} },
@@ -399,3 +382,25 @@ func registerCommitments() {
 		valid: func(d *iCom) (*iCom, error) { return indcpacom.NewCommitment(d.Value()) },
 	})
 }
+
+// intcomTrapdoor builds a ring-Pedersen trapdoor key over the safe-prime pair pp with fixed randomness.
+func intcomTrapdoor(pp primePair, label string) *intcom.TrapdoorKey {
+	p, q := pp.natPlus()
+	grp := must(znstar.NewRSAGroup(p, q))
+	pq := new(big.Int).Mul(new(big.Int).Rsh(bigHex(pp.p), 1), new(big.Int).Rsh(bigHex(pp.q), 1))
+	zmod := must(num.NewZMod(must(num.NPlus().FromBig(pq))))
+	st := stream(label)
+	for i := 0; i < 1000; i++ {
+		t := must(grp.RandomQuadraticResidue(st))
+		b := make([]byte, (pq.BitLen()+7)/8+8)
+		_, _ = st.Read(b)
+		lambda := must(zmod.FromBig(new(big.Int).Mod(new(big.Int).SetBytes(b), pq)))
+		if tk, err := intcom.NewTrapdoorKey(t, lambda); err == nil {
+			return tk
+		}
+	}
+	panic("no intcom trapdoor key found")
+}
+
+// a second safe-prime pair (N of 512 bits), from the same table as checks/c16/keys_test.go
+var safe512 = primePair{"safe512", "e9061daf0f3e5e4ab81120532317186c7d3b71058d1966cf2d54996f324c2a0b", "da60905ff4704f77c1168f60733a463a51f05330b615a80a88116fd4939e0f6f"}
